@@ -298,6 +298,10 @@ class Model:
             for parent in ast.walk(m.tree):
                 for child in ast.iter_child_nodes(parent):
                     child._parent = parent  # type: ignore
+                # a call that can only raise TypeError when executed is not something the rules reason about
+                if isinstance(parent, ast.Call) and isinstance(parent.func, ast.Name) and parent.func.id in ("isinstance", "issubclass") \
+                        and (len(parent.args) != 2 or parent.keywords):
+                    raise AnalysisError("malformed %s() call at %s:%d" % (parent.func.id, m.relpath, parent.lineno))
 
     def _scan_module(self, m: ModuleInfo):
         def scan_imports(node):
